@@ -12,4 +12,6 @@ EXTRA = {
     "C05_w6_seed_2": ["C08"], "C05_w6_seed_3": ["C06", "C08"], "C07_w6_seed_1": ["C06"], "C08_w6_seed_1": ["C07"], "C09_w6_seed_3": ["C16"],
     "C10_w6_seed_1": ["C06"], "C10_w6_seed_2": ["C06", "C07"], "C12_w6_seed_3": ["C02"], "C13_w6_seed_1": ["C06"], "C14_w6_seed_3": ["C04", "C10"],
     "C19_w6_seed_1": ["C05", "C06"],
+    # restarts of time-reversed runs (C08 extended in session 3)
+    "C10_w4_seed_2": ["C08"], "C10_w6_seed_3": ["C08"],
 }
